@@ -16,6 +16,8 @@ def sid_to_bytes(sid: str) -> bytes:
     sid_split = sid.split("-")
     revision = int(sid_split[1])
     authority = int(sid_split[2])
+    if authority >= 2**48 or any(int(s) >= 2**32 for s in sid_split[3:]):
+        raise ValueError(f"Input string '{sid}' is not a valid SID string, value out of range")
 
     data = bytearray(authority.to_bytes(8, byteorder="big"))
     data[0] = revision
